@@ -385,7 +385,8 @@ def prop_check(scn, rec):
 
 # ----------------------------------------------------------------------------------------
 def coq_hscript(scn, cfg, items):
-    docf = "(fun g => %s)" % kkdrv.coq_doc((doc_v1 if scn["doc"] == "v1" else doc_v2)("@@G@@"), items).replace("(Some %s)" % cb("@@G@@"), "g")
+    docf = "(fun g => %s)" % kkdrv.coq_doc((doc_v1 if scn["doc"] == "v1" else doc_v2)(None), items).replace("d_guid := (@None bytes)", "d_guid := g")
+    assert "d_guid := g" in docf
     guid = "None" if cfg["guid"] == "latch" else "(Some %s)" % copt(cb(cfg["guid"]) if cfg["guid"] is not None else None, "bytes")
     sf = "None"
     if cfg["store_fail"] == "rename":
@@ -501,12 +502,15 @@ def run(ctx):
 
     # ---------------- model, phase 1: cheap summary of EVERY crash point of every scenario ----------------
     items = kkdrv.ItemTable()
-    sres = vplib.coq_eval(ctx, "From GPA Require Import KeyStore.", [coq_summaries(s, items) for s in scns], shard=1, name="c08sum")
+    kkdrv.INTERN = kkdrv.Interner()
+    sum_exprs = [coq_summaries(s, items) for s in scns]
+    skel_exprs = [coq_skeleton(s, items) for s in scns]
+    sres = vplib.coq_eval(ctx, "From GPA Require Import KeyStore.", sum_exprs, prelude=kkdrv.INTERN.prelude(), shard=1, name="c08sum")
     summaries = {}
     for s, r in zip(scns, sres):
         summaries[s["name"]] = [(nreq, tuple(None if l is None else l[1] for l in lens)) for (nreq, lens) in r]
     ctx.log("model: %s crash points" % sum(len(v) for v in summaries.values()))
-    kres = vplib.coq_eval(ctx, "From GPA Require Import KeyStore.", [coq_skeleton(s, items) for s in scns], shard=1, name="c08skel")
+    kres = vplib.coq_eval(ctx, "From GPA Require Import KeyStore.", skel_exprs, prelude=kkdrv.INTERN.prelude(), shard=1, name="c08skel")
     skeletons = {}
     for s, r in zip(scns, kres):
         sk = []
@@ -622,7 +626,9 @@ def run(ctx):
             s = next(x for x in scns if x["name"] == rec["scenario"])
             sm = summary_of(s, rec["obs"])
             want[s["name"]].update(i for i, x in enumerate(summaries[s["name"]]) if x == sm)
-    mres = vplib.coq_eval(ctx, "From GPA Require Import KeyStore.", [coq_points(s, items, want[s["name"]]) for s in scns], shard=1, name="c08")
+    pt_exprs = [coq_points(s, items, want[s["name"]]) for s in scns]
+    mres = vplib.coq_eval(ctx, "From GPA Require Import KeyStore.", pt_exprs, prelude=kkdrv.INTERN.prelude(), shard=1, name="c08")
+    kkdrv.INTERN = None
     model = {}
     for s, r in zip(scns, mres):
         pts, (f_pre, (f_dig, f_lat, f_n), f_key, f_state) = r
